@@ -3,38 +3,33 @@ import Driver.Proto
 open MitmVerif Driver MitmVerif.C04 MitmVerif.C04.Prog
 
 /-!
-  `run <nl> <aos> <prog1> … <prog5> <sched>` → one line: the canonical trace that harness/c04.py also
-  renders from the real layers (per step: emitted commands, every layer's paused command and queue,
+  `run <nl> <aos> <nodes> <sched>`  → one line: the canonical trace that harness/c04.py also renders from the
+  real layers (per step: emitted commands, every layer's paused command, queue and bound handler,
   NextLayer.events / handed-over flag; at the end every layer's handled events and sent-in values).
+  The layer tree is arbitrary (height ≤ 4 here, any branching): `Prog.TS 3` / `Prog.HT 3`.
+
+  `prim <tabs> <ops>` → the generator primitives of one layer driven one by one:
+  `p<l>` = `__process(self._handle_event(ev))`, `q<l>` = `_paused_event_queue.append(ev)`,
+  `k<r>` = `__continue(completion of the paused command, reply r)`, `e<l>` / `b<r>` = `handle_event`.
 -/
 namespace C04D
 
-abbrev L3 := Layer S Ev Cmd Reply
-abbrev S2 := S × List L3
-abbrev L2 := Layer S2 Ev Cmd Reply
-abbrev S1 := S × List L2
-abbrev L1 := Layer S1 Ev Cmd Reply
-abbrev NLS := NLState S1 Ev Cmd Reply
+def DEPTH : Nat := 3
+abbrev TL (d : Nat) := Layer (TS d) Ev Cmd Reply
+abbrev NLS := NLState (TS DEPTH) Ev Cmd Reply
 abbrev NL := Layer NLS Ev Cmd Reply
 
-structure Progs where
-  p1 : Table
-  p2 : Table
-  p3 : Table
-  p4 : Table
-  p5 : Table
+structure NodeDesc where
+  idx    : Nat
+  parent : Nat
+  route  : List (List Nat)
+  tabs   : List Table
 
-def H3 (idx : Nat) (tab : Table) : Handler S Ev Cmd Reply := fun s ev => (interp idx tab s ev).flat
+def nodeOf (nd : NodeDesc) : Node := ⟨⟨0, 0⟩, 0, nd.idx, nd.tabs, nd.route⟩
 
-def H2 (P : Progs) (i : Nat) : Handler S2 Ev Cmd Reply :=
-  if i = 0 then parentHandler (interp 2 P.p2) (fun _ => H3 4 P.p4) 0
-  else parentHandler (interp 3 P.p3) (fun _ => H3 5 P.p5) 0
-
-def H1 (P : Progs) : Handler S1 Ev Cmd Reply := parentHandler (interp 1 P.p1) (H2 P) 0
-
-def l3 : L3 := Layer.init ⟨0, 0⟩
-def l2 : L2 := Layer.init (⟨0, 0⟩, [l3])
-def l1 : L1 := Layer.init (⟨0, 0⟩, [l2, l2])
+def mkLayer (nodes : List NodeDesc) : (d : Nat) → NodeDesc → TL d
+  | 0, nd => Layer.init (nodeOf nd)
+  | d + 1, nd => Layer.init (nodeOf nd, (nodes.filter (fun k => k.parent = nd.idx)).map (mkLayer nodes d))
 
 def nlParams (aos : Bool) : NLParams Ev Cmd Reply where
   kind e := if e.label = 0 then .start else if e.label = 1 ∨ e.label = 2 then .data
@@ -46,7 +41,7 @@ def nlParams (aos : Bool) : NLParams Ev Cmd Reply where
 
 inductive Top where
   | nl (L : NL)
-  | bare (L : L1)
+  | bare (L : TL DEPTH)
 
 def blkStr : Blk → String
   | .no => "n" | .yes => "y" | .owned => "o"
@@ -63,17 +58,6 @@ def snapLayer {σ : Type} (L : Layer σ Ev Cmd Reply) : String :=
   let p := match L.paused with | some (c, _) => cmdStr c .owned | none => "-"
   s!"{p}:{joinWith ";" (L.queue.map evStr)}"
 
-def snapTree (t : L1) : List String :=
-  let kids := t.st.2
-  let grand := kids.map (fun k => match k.st.2 with | g :: _ => snapLayer g | [] => "?")
-  [snapLayer t] ++ kids.map snapLayer ++ grand
-
-def snap : Top → String
-  | .nl L =>
-    let h := s!"{snapLayer L}:{joinWith ";" (L.st.events.map evStr)}:{if L.st.handed then 1 else 0}"
-    joinWith "|" (h :: snapTree L.st.child)
-  | .bare t => joinWith "|" ("x" :: snapTree t)
-
 def logStr {σ : Type} (idx : Nat) (L : Layer σ Ev Cmd Reply) : String :=
   joinWith ";" (L.log.filterMap fun
     | .handle ev => some ("h" ++ evStr ev)
@@ -81,15 +65,18 @@ def logStr {σ : Type} (idx : Nat) (L : Layer σ Ev Cmd Reply) : String :=
     | .pause _ => none
     | .resume c r => some s!"s{c.n}r{r}")
 
-def logsTree (t : L1) : String :=
-  match t.st.2 with
-  | [a, b] =>
-    match a.st.2, b.st.2 with
-    | [a4], [b5] => joinWith "|" [logStr 1 t, logStr 2 a, logStr 3 b, logStr 4 a4, logStr 5 b5]
-    | _, _ => "?"
-  | _ => "?"
+/-- preorder list of (snapshot, log) of every layer of the tree -/
+def collect : (d : Nat) → TL d → List (String × String)
+  | 0, L => [(s!"{snapLayer L}:m{L.st.mode}", logStr L.st.idx L)]
+  | d + 1, L => (s!"{snapLayer L}:m{L.st.1.mode}", logStr L.st.1.idx L) :: L.st.2.flatMap (collect d)
 
-def treeOf : Top → L1
+def snap : Top → String
+  | .nl L =>
+    let h := s!"{snapLayer L}:{joinWith ";" (L.st.events.map evStr)}:{if L.st.handed then 1 else 0}"
+    joinWith "|" (h :: (collect DEPTH L.st.child).map (·.1))
+  | .bare t => joinWith "|" ("x" :: (collect DEPTH t).map (·.1))
+
+def treeOf : Top → TL DEPTH
   | .nl L => L.st.child
   | .bare t => t
 
@@ -104,36 +91,63 @@ structure St where
   pending : List Cmd
   acc     : List String      -- reversed
 
-def deliver (P : Progs) (aos : Bool) (st : St) (ev : E) : St :=
+def deliver (aos : Bool) (st : St) (ev : E) : St :=
   let (top', out) : Top × Out Cmd :=
     match st.top with
-    | .nl L => let r := nlHandleEvent (nlParams aos) (H1 P) 0 L ev; (.nl r.1, r.2)
-    | .bare t => let r := handleEvent (H1 P) 0 t ev; (.bare r.1, r.2)
+    | .nl L => let r := nlHandleEvent (nlParams aos) (HT DEPTH) 0 L ev; (.nl r.1, r.2)
+    | .bare t => let r := handleEvent (HT DEPTH) 0 t ev; (.bare r.1, r.2)
   let s := s!"[{joinWith ";" (out.map fun x => cmdStr x.1 x.2)}]{snap top'}"
   { top := top',
     emitted := st.emitted ++ (out.map (·.1)).toArray,
     pending := st.pending ++ (out.filter (fun x => x.2 ≠ .no)).map (·.1),
     acc := s :: st.acc }
 
-def stepOne (P : Progs) (aos : Bool) (st : St) (uid : Nat) : Step → St
-  | .e label => deliver P aos st (.plain ⟨label, uid⟩)
+def stepOne (aos : Bool) (st : St) (uid : Nat) : Step → St
+  | .e label => deliver aos st (.plain ⟨label, uid⟩)
   | .b j r =>
     match st.pending[j % st.pending.length]? with
     | none => { st with acc := "skip" :: st.acc }
-    | some c => deliver P aos { st with pending := st.pending.erase c } (.completed c r)
+    | some c => deliver aos { st with pending := st.pending.erase c } (.completed c r)
   | .c j r =>
     match st.emitted[j % st.emitted.size]? with
     | none => { st with acc := "skip" :: st.acc }
-    | some c => deliver P aos { st with pending := st.pending.erase c } (.completed c r)
+    | some c => deliver aos { st with pending := st.pending.erase c } (.completed c r)
 
-def runAll (P : Progs) (aos : Bool) : St → Nat → List Step → St
+def runAll (aos : Bool) : St → Nat → List Step → St
   | st, _, [] => st
-  | st, uid, s :: rest => runAll P aos (stepOne P aos st uid s) (uid + 1) rest
+  | st, uid, s :: rest => runAll aos (stepOne aos st uid s) (uid + 1) rest
+
+/-! the generator primitives, one op each, on a single leaf layer -/
+inductive Prim where
+  | p (l : Nat) | q (l : Nat) | k (r : Nat) | e (l : Nat) | b (r : Nat)
+
+def primStep (L : TL 0) (uid : Nat) : Prim → Option (TL 0 × Out Cmd)
+  | .p l => match L.paused with
+    | some _ => none
+    | none => some (handleFresh (HT 0) 0 L (.plain ⟨l, uid⟩))
+  | .q l => some (enqueue L (.plain ⟨l, uid⟩))
+  | .k r => match L.paused with
+    | some (c, k) => some (resumeWith (HT 0) 0 L c k r)
+    | none => none
+  | .e l => some (handleEvent (HT 0) 0 L (.plain ⟨l, uid⟩))
+  | .b r => match L.paused with
+    | some (c, _) => some (handleEvent (HT 0) 0 L (.completed c r))
+    | none => none
+
+def primAll : TL 0 → Nat → List Prim → List String → TL 0 × List String
+  | L, _, [], acc => (L, acc)
+  | L, uid, op :: rest, acc =>
+    match primStep L uid op with
+    | none => primAll L (uid + 1) rest ("skip" :: acc)
+    | some (L', out) =>
+      primAll L' (uid + 1) rest
+        (s!"[{joinWith ";" (out.map fun x => cmdStr x.1 x.2)}]{snapLayer L'}:m{L'.st.mode}" :: acc)
 
 /-! parsing -/
 def parseAct (s : String) : Option Act :=
   match s.toList with
   | 'c' :: d => (String.ofList d).toNat?.map .ch
+  | 's' :: d => (String.ofList d).toNat?.map .sw
   | 'y' :: rest =>
     match (String.ofList rest).splitOn "b" with
     | [l, b] => match l.toNat?, b.toNat? with
@@ -147,6 +161,18 @@ def parseActs (s : String) : Option (List Act) :=
   if s = "-" then some [] else (s.splitOn ",").mapM parseAct
 
 def parseTable (s : String) : Option Table := (s.splitOn "/").mapM parseActs
+
+def parseTabs (s : String) : Option (List Table) := (s.splitOn "~").mapM parseTable
+
+def parseRoute (s : String) : Option (List (List Nat)) :=
+  if s = "-" then some [] else (s.splitOn "+").mapM (fun g => (g.splitOn ".").mapM (·.toNat?))
+
+def parseNode (s : String) : Option NodeDesc :=
+  match s.splitOn ":" with
+  | [i, p, r, t] => match i.toNat?, p.toNat?, parseRoute r, parseTabs t with
+    | some i, some p, some r, some t => some ⟨i, p, r, t⟩
+    | _, _, _, _ => none
+  | _ => none
 
 def parseStep (s : String) : Option Step :=
   match s.toList with
@@ -164,17 +190,33 @@ def parseStep (s : String) : Option Step :=
 def parseSched (s : String) : Option (List Step) :=
   if s = "-" then some [] else (s.splitOn ",").mapM parseStep
 
+def parsePrim (s : String) : Option Prim :=
+  match s.toList with
+  | k :: d => match (String.ofList d).toNat? with
+    | some n =>
+      if k = 'p' then some (.p n) else if k = 'q' then some (.q n) else if k = 'k' then some (.k n)
+      else if k = 'e' then some (.e n) else if k = 'b' then some (.b n) else none
+    | none => none
+  | [] => none
+
 def step (line : String) : String :=
   match fields line with
-  | ["run", nl, aos, a, b, c, d, e, sch] =>
-    match parseTable a, parseTable b, parseTable c, parseTable d, parseTable e, parseSched sch with
-    | some p1, some p2, some p3, some p4, some p5, some sched =>
+  | ["run", nl, aos, nodes, sch] =>
+    match (nodes.splitOn "|").mapM parseNode, parseSched sch with
+    | some (root :: more), some sched =>
       if (nl ≠ "0" ∧ nl ≠ "1") ∨ (aos ≠ "0" ∧ aos ≠ "1") then "bad-op" else
-      let P : Progs := ⟨p1, p2, p3, p4, p5⟩
-      let top : Top := if nl = "1" then .nl (nlInit l1) else .bare l1
-      let fin := runAll P (aos = "1") ⟨top, #[], [], []⟩ 0 sched
-      joinWith "#" fin.acc.reverse ++ "@" ++ logsTree (treeOf fin.top)
-    | _, _, _, _, _, _ => "bad-op"
+      let tree := mkLayer (root :: more) DEPTH root
+      let top : Top := if nl = "1" then .nl (nlInit tree) else .bare tree
+      let fin := runAll (aos = "1") ⟨top, #[], [], []⟩ 0 sched
+      joinWith "#" fin.acc.reverse ++ "@" ++ joinWith "|" ((collect DEPTH (treeOf fin.top)).map (·.2))
+    | _, _ => "bad-op"
+  | ["prim", tabs, ops] =>
+    match parseTabs tabs, (if ops = "-" then some [] else (ops.splitOn ",").mapM parsePrim) with
+    | some t, some ops =>
+      let L0 : TL 0 := Layer.init ⟨⟨0, 0⟩, 0, 1, t, []⟩
+      let (L, acc) := primAll L0 0 ops []
+      joinWith "#" acc.reverse ++ "@" ++ logStr 1 L
+    | _, _ => "bad-op"
   | _ => "bad-op"
 
 end C04D
